@@ -75,17 +75,17 @@ func roundTrip(kind string, cs *Case, q1 *contactql.ContactQuery, o *obs) []Prob
 	for _, v := range vals {
 		noteValue(o, v)
 	}
-	q2, err, pnc := guardedParse(cs.Cfg, s, o)
-	if pnc != "" {
-		return []Problem{{Key: "panic:reparse:" + mc.PanicSite(pnc), What: fmt.Sprintf("ParseQuery panicked on formatted text (%s): %q\n%s", cs.Cfg, s, pnc)}}
+	rp := reparse(cs.Cfg, s, o)
+	if rp.pnc != "" {
+		return []Problem{{Key: "panic:reparse:" + mc.PanicSite(rp.pnc), What: fmt.Sprintf("ParseQuery panicked on formatted text (%s): %q\n%s", cs.Cfg, s, rp.pnc)}}
 	}
-	if err != nil {
+	if rp.err != nil {
 		return []Problem{{
-			Key:  fmt.Sprintf("%s:reparse-rejected:%s:%s", kind, errCode(err), feature(s, worstValue(vals))),
-			What: fmt.Sprintf("(%s) query %q is accepted and parses to %s\nit formats as %q, which the parser rejects: %v", cs.Cfg, cs.Query, t1, s, err),
+			Key:  fmt.Sprintf("%s:reparse-rejected:%s:%s", kind, errCode(rp.err), feature(s, worstValue(vals))),
+			What: fmt.Sprintf("(%s) query %q is accepted and parses to %s\nit formats as %q, which the parser rejects: %v", cs.Cfg, cs.Query, t1, s, rp.err),
 		}}
 	}
-	t2 := fromQuery(q2.Root())
+	t2 := rp.tree
 	if d := diff(t1, t2); d != "" {
 		return []Problem{{
 			Key:  fmt.Sprintf("%s:reparse-differs:%s:%s", kind, d, feature(s, worstValue(vals))),
@@ -93,6 +93,39 @@ func roundTrip(kind string, cs *Case, q1 *contactql.ContactQuery, o *obs) []Prob
 		}}
 	}
 	return nil
+}
+
+type reparsed struct {
+	tree *Node
+	err  error
+	pnc  string
+}
+
+var reparseCache = map[Cfg]map[string]reparsed{}
+
+// reparse parses formatted text; many token sequences format to the same text, and parsing is a
+// function of (configuration, text), so results are memoised.
+func reparse(cfg Cfg, s string, o *obs) reparsed {
+	m := reparseCache[cfg]
+	if m == nil {
+		m = map[string]reparsed{}
+		reparseCache[cfg] = m
+	}
+	if r, ok := m[s]; ok {
+		return r
+	}
+	var r reparsed
+	q, err, pnc := guardedParse(cfg, s, o)
+	r.err, r.pnc = err, pnc
+	if err == nil && pnc == "" {
+		r.tree = fromQuery(q.Root())
+	}
+	if len(m) > 100000 {
+		m = map[string]reparsed{}
+		reparseCache[cfg] = m
+	}
+	m[s] = r
+	return r
 }
 
 func noteValue(o *obs, v string) {
